@@ -303,7 +303,7 @@ class C08(Prop):
     ID = 'C08'
     CORRESPONDENCE = 'PlaybackModel.Equalizer.runDedT / runInProc vs Equalizer.run_comparison over scripted players'
     RULE = ('one case = one sequence of 3-8 recording ids with a scripted behaviour per id (verdict, bare status, player / '
-            'extractor / comparator raises, worker exits, hangs, answers late, a result the parent cannot unpickle; ~12% of the answering '
+            'extractor / comparator raises, worker exits, hangs, answers late, a result the parent cannot unpickle; a third of the recordings carry comparison data of their own which the comparator checks; ~12% of the answering '
             'replays do part of their work in a multiprocessing child of their own), run on the real Equalizer in real worker '
             'processes (and in-process when meaningful); non-trivial = the sequence contains a failure of some kind; '
             'distinct = distinct canonical case')
